@@ -1,6 +1,6 @@
 (* Proofs for C02 (and reused by C06/C13/C19): directory manifests. *)
 From Coq Require Import List NArith Bool Lia Permutation Sorted Arith.
-From SWH.lib Require Import Bytes Dec Hex Order StableSort GitHeader.
+From SWH.lib Require Import Bytes Dec Hex Order StableSort GitHeader ListAux.
 From SWH.model Require Import Dir.
 Import ListNotations.
 Open Scope N_scope.
@@ -70,16 +70,6 @@ Proof.
   intros es es' P [H1 H2]. split.
   - intros e He. apply H1. apply (Permutation_in _ (Permutation_sym P)). exact He.
   - apply (Permutation_NoDup (Permutation_map e_name P)). exact H2.
-Qed.
-
-Lemma NoDup_map_inj : forall {A B} (f : A -> B) l x y,
-  NoDup (map f l) -> In x l -> In y l -> f x = f y -> x = y.
-Proof.
-  intros A B f. induction l as [|a l IH]; intros x y ND Hx Hy E; [destruct Hx|].
-  cbn [map] in ND. inversion ND as [|? ? Hn ND']; subst.
-  destruct Hx as [<-|Hx]; destruct Hy as [<-|Hy]; auto.
-  - exfalso. apply Hn. rewrite E. apply in_map. exact Hy.
-  - exfalso. apply Hn. rewrite <- E. apply in_map. exact Hx.
 Qed.
 
 (* ------------------------------------------------------------------ sort key *)
@@ -157,24 +147,6 @@ Lemma git_entry_cmp_key : forall a b,
   ~ In NUL (e_name a) -> ~ In SLASH (e_name a) -> ~ In NUL (e_name b) -> ~ In SLASH (e_name b) ->
   git_entry_cmp a b = bcompare (sort_key a) (sort_key b).
 Proof. intros. unfold git_entry_cmp. rewrite !sort_key_suffix. apply git_cmp_is_key_order; assumption. Qed.
-
-(* insertion sort only looks at comparisons between elements of the list *)
-Lemma insert_ext : forall {A} (f g : A -> A -> bool) x l,
-  (forall y, In y l -> f x y = g x y) -> insert f x l = insert g x l.
-Proof.
-  intros A f g x. induction l as [|y l IH]; intro H; [reflexivity|].
-  cbn [insert]. rewrite (H y (or_introl eq_refl)). destruct (g x y); [reflexivity|].
-  f_equal. apply IH. intros z Hz. apply H. right. exact Hz.
-Qed.
-
-Lemma sort_ext : forall {A} (f g : A -> A -> bool) l,
-  (forall x y, In x l -> In y l -> f x y = g x y) -> sort f l = sort g l.
-Proof.
-  intros A f g. induction l as [|x l IH]; intro H; [reflexivity|].
-  cbn [sort]. rewrite IH by (intros; apply H; right; assumption).
-  apply insert_ext. intros y Hy. apply H; [left; reflexivity|].
-  right. apply (Permutation_in _ (sort_perm g l)). exact Hy.
-Qed.
 
 (* the code's order (byte order of the slash-suffixed key) IS git's order *)
 Theorem sort_is_git_sort : forall es, WfNames es -> sort entry_leb es = sort git_leb es.
